@@ -78,7 +78,9 @@ def _copy_isolated(c, origin):
         # exactly [its arguments (incl. the bound variable, pushed into them later), global data]
         chain_ok = isinstance(g, HObj) and g.cls[1] == "ReadOnlyChainMap" and r.st.deref(g.fields["_maps"]).items == [namespace, global_data]
         order_ok = len(maps) == 4 and maps[0] == f["locals"] and maps[1] == f["globals"] and maps[3] == f["counters"]
-        return z3.BoolVal(fresh_locals and chain_ok and order_ok and not (reach & forbidden) and (f["disabled_tags"] == disabled or (isinstance(r.st.deref(f["disabled_tags"]), HList) and r.st.deref(f["disabled_tags"]).items == [])))
+        lp = r.st.deref(f["loops"])
+        no_loops = isinstance(lp, HList) and lp.items == [] and not lp.tail   # no forloop/parentloop of the caller
+        return z3.BoolVal(fresh_locals and no_loops and chain_ok and order_ok and not (reach & forbidden) and (f["disabled_tags"] == disabled or (isinstance(r.st.deref(f["disabled_tags"]), HList) and r.st.deref(f["disabled_tags"]).items == [])))
     c.ensures("partial-sees-exactly-its-arguments-and-global-data-and-shares-no-mutable-caller-state", post)
     def caller_untouched(r):
         f = r.st.deref(ctx).fields
@@ -140,6 +142,34 @@ def call_sites():
             if must_disable:
                 bs_ok = all(isinstance(flow.kwarg(cl, "block_scope"), ast.Constant) and flow.kwarg(cl, "block_scope").value is True for cl in rcalls)
                 obs.append(flow.ob(f"{cls}.{fname}:interrupts-do-not-leak(block_scope=True)", bs_ok, "", replay_schema="code", replay_extra={"code": REPLAY}))
+            # reads of the caller's context are confined to: evaluating the call site's argument
+            # expressions, finding the template/macro, building Undefined values, and copy()
+            pm = flow.parents(fn)
+            reads = []
+            for n in ast.walk(fn):
+                if not (isinstance(n, ast.Name) and n.id == "context"):
+                    continue
+                p = pm[n]
+                if isinstance(p, ast.Attribute):
+                    chain = flow.dotted(p)
+                    while isinstance(pm.get(p), ast.Attribute):
+                        p = pm[p]
+                        chain = flow.dotted(p)
+                    reads.append(chain)
+                elif isinstance(p, ast.Call) and isinstance(p.func, ast.Attribute) and p.func.attr in ("evaluate", "evaluate_async") and n in p.args:
+                    reads.append("<argument-expression>.evaluate(context)")
+                elif isinstance(p, ast.keyword) and p.arg == "context":
+                    reads.append("context=context")
+                else:
+                    reads.append("?" + flow.dotted(p)[:40])
+            allowed = {"<argument-expression>.evaluate(context)", "context=context", "context.copy", "context.env.undefined", "context.env.get_template", "context.env.get_template_async",
+                       "context.template.full_name", "context.tag_namespace"} | ({"context.resolve"} if must_disable else set())
+            extra = sorted(set(reads) - allowed)
+            obs.append(flow.ob(f"{cls}.{fname}:reads-the-callers-context-only-through-argument-expressions", not extra, str(extra), replay_schema="code", replay_extra={"code": REPLAY_MISSING_ARG}))
+            if must_disable:
+                # context.resolve is used once, for the name of an inline snippet, never for a binding
+                res = [flow.dotted(cl)[:80] for cl in flow.calls(fn) if flow.dotted(cl.func) == "context.resolve"]
+                obs.append(flow.ob(f"{cls}.{fname}:context.resolve-only-looks-up-the-template-name", all(r.startswith("context.resolve(self.name,") for r in res) and len(res) <= 1, str(res)))
             writes = [flow.dotted(cl)[:60] for cl in flow.calls(fn) if isinstance(cl.func, ast.Attribute) and flow.dotted(cl.func.value) == "context" and cl.func.attr in ("assign", "extend", "loop", "increment", "decrement", "cycle", "ifchanged", "stopindex")]
             stores = [flow.dotted(n)[:60] for n in ast.walk(fn) if isinstance(n, (ast.Attribute, ast.Subscript)) and isinstance(n.ctx, ast.Store) and flow.dotted(n).startswith("context.")]
             obs.append(flow.ob(f"{cls}.{fname}:does-not-write-the-callers-context", not writes and not stores, str(writes + stores), replay_schema="code", replay_extra={"code": REPLAY}))
@@ -161,6 +191,14 @@ def call_sites():
 not_covered("C15", "environment and template globals are shared by design (the statement allows 'global data')", "the snippet tag and inline templates")
 
 bounded("C15", "bounded/C15.py")
+
+REPLAY_MISSING_ARG = r'''
+def run(m):
+    from liquid import Environment
+    env = Environment(extra=True)
+    got = env.from_string("{% macro m a %}[{{ a }}]{% endmacro %}{% assign a = 'CALLER' %}{% call m %}").render()
+    return {"violated": got != "[]", "observed": got}
+'''
 
 REPLAY_NESTED = r'''
 def run(m):
